@@ -96,6 +96,25 @@ def impl_eval(case):
             st, out = guarded(reuse)
         elif case.get('via') == 'mixin':
             st, out = guarded(lambda: pb.Iso0TDESPinBlockWithVisaPVV(pin, card_number=pan).to_pvv(key, key_index=idx))
+        elif case.get('via') == 'mixin-positional':
+            # the documented parameter order (pvv_key, key_index, card_number), given by position
+            st, out = guarded(lambda: pb.Iso0TDESPinBlockWithVisaPVV(pin, card_number=pan).to_pvv(key, idx))
+        elif case.get('via') == 'mixin4-positional':
+            st, out = guarded(lambda: pb.Iso4AESPinBlockWithVisaPVV(pin, random_value=5).to_pvv(key, idx, pan))
+        elif case.get('via') == 'rebuilt':
+            # the PVV of a pin block object rebuilt from its clear bytes with the card number
+            def rebuilt():
+                cls = pb.Iso0TDESPinBlockWithVisaPVV
+                o = cls.from_bytes(cls(pin, card_number=pan).to_bytes(), card_number=pan)
+                return o.to_pvv(key, key_index=idx)
+            st, out = guarded(rebuilt)
+        elif case.get('via') == 'rebuilt-enc':
+            def rebuilt_enc():
+                cls = pb.Iso0TDESPinBlockWithVisaPVV
+                ppk = key[:32]
+                o = cls.from_enc_bytes(cls(pin, card_number=pan).to_enc_bytes(ppk), ppk, card_number=pan)
+                return o.to_pvv(key, key_index=idx)
+            st, out = guarded(rebuilt_enc)
         elif case.get('via') == 'mixin4':
             st, out = guarded(lambda: pb.Iso4AESPinBlockWithVisaPVV(pin, random_value=5).to_pvv(
                 key, key_index=idx, card_number=pan))
@@ -205,9 +224,13 @@ def explore(run, tier):
         ct = ''.join(rng.choice('0123456789') if j in pos else rng.choice('abcdef') for j in range(16))
         cases.append({'k': 'pvvstub', 'pin': digits(rng.randrange(4, 13)), 'pan': digits(rng.randrange(13, 20)),
                       'idx': rng.randrange(10), 'ct': ct})
-    for _ in range(3000 if tier == 'quick' else 100000):
-        cases.append({'k': 'pvv', 'pin': digits(rng.randrange(4, 13)), 'pan': digits(rng.randrange(13, 20)),
-                      'idx': rng.randrange(10), 'key': rkey(rng.choice([16, 24]))})
+    for i in range(3000 if tier == 'quick' else 100000):
+        c = {'k': 'pvv', 'pin': digits(rng.randrange(4, 13)), 'pan': digits(rng.randrange(13, 20)),
+             'idx': rng.randrange(10), 'key': rkey(rng.choice([16, 24]))}
+        if i % 10 == 0:
+            # other ways to the same value: positional arguments, pin block objects rebuilt from (encrypted) bytes
+            c['via'] = ['mixin-positional', 'mixin4-positional', 'rebuilt', 'rebuilt-enc'][(i // 10) % 4]
+        cases.append(c)
     # one pin block object asked repeatedly (other key index / PAN / key first)
     for i in range(120 if tier == 'quick' else 3000):
         pin, pan, idx, key = digits(rng.randrange(4, 13)), digits(rng.randrange(13, 20)), rng.randrange(10), rkey(16)
